@@ -92,13 +92,70 @@ def codec_cases(rng, tier):
     return cases
 
 
+def factory_cases(rng, mt, tier):
+    """Decoding through the frame factory: several classes share a class/id (request / action / response layouts); the class
+    registered LAST for a class/id decodes the payload (poll() registers the response class right before waiting)."""
+    from ubxlib.frame_factory import FrameFactory
+    by_cid = {}
+    for name, e in sorted(mt.items()):
+        if e['kind'] in ('fixed', 'counted', 'monver') and (e['kind'] != 'fixed' or e['layout']):
+            by_cid.setdefault(e['cid'], []).append((name, e))
+    others = {}
+    for name, e in sorted(mt.items()):
+        others.setdefault(e['cid'], []).append((name, e))
+    cases = []
+    for cid, decs in sorted(by_cid.items()):
+        for name, e in decs:
+            for first_name, first in others[cid]:
+                if first_name == name or first['kind'] == 'ctor-args':
+                    continue
+                if e['kind'] == 'fixed':
+                    pay = F.rand_payload_for(rng, e['layout'])
+                elif e['kind'] == 'monver':
+                    pay = F.rand_payload_for(rng, [('swVersion', 'C30'), ('hwVersion', 'C10'), ('extension_0', 'C30')])
+                else:
+                    hdrpay = bytearray(F.rand_payload_for(rng, e['hdr']))
+                    off = sum(F.tok_width(t) for n, t in e['hdr'][:[n for n, _ in e['hdr']].index(e['count'])])
+                    hdrpay[off] = rng.choice([1, 2, 3])
+                    lay = F.layout_for(e, hdrpay)
+                    pay = bytes(hdrpay) + F.rand_payload_for(rng, lay[len(e['hdr']):])
+
+                def run(a=first['cls'], b=e['cls'], pay=pay):
+                    from ubxlib.cid import UbxCID
+                    FrameFactory.destroy()
+                    ff = FrameFactory.getInstance()
+                    ff.register(a)
+                    ff.register(b)
+                    fr = ff.build_with_data(UbxCID(*cid), bytearray(pay))
+                    FrameFactory.destroy()
+                    return ('' if type(fr) is b else f'decoded-as-{type(fr).__name__} ') + F.render_fields(fr)
+                cases.append(Case('decode-via-factory', f'dec {e["kindspec"]} {C.hexs(pay)}', C.guarded(run),
+                                  {'message': name, 'registered_before': first_name, 'payload_hex': C.hexs(pay)}, kind='factory-order'))
+    return cases
+
+
 def valget_cases(rng, tier):
     """CFG-VALGET responses: configuration key/value pairs indexed in payload order (1..64 pairs, all sizes)."""
     from .. import cfggen as K
     from .. import reflect
     kt = reflect.key_tables()
-    sk = ','.join(str(k) for k in kt['signed']) or '-'
+    sk = ','.join(str(k) for k in K.DOCUMENTED_SIGNED)       # the layout oracle, not what the library's own table says
     cases = []
+    # every published key with the boundary patterns of its width (sign bit set / clear): signedness as documented
+    consts = sorted(kt['consts'].values())
+    pats = [lambda w: bytes(w), lambda w: b'\xff' * w, lambda w: bytes(w - 1) + b'\x80', lambda w: b'\xff' * (w - 1) + b'\x7f', lambda w: b'\x01' + bytes(w - 1)]
+    for pi, pat in enumerate(pats):
+        for start in range(0, len(consts), 40):
+            body = b''
+            for key in consts[start:start + 40]:
+                size = (key >> 28) & 7
+                w = {1: 1, 2: 1, 3: 2, 4: 4, 5: 8}.get(size)
+                if w is None:
+                    continue
+                body += key.to_bytes(4, 'little') + (pat(w) if size != 1 else bytes([pi % 2]))
+            data = bytes(4) + body
+            impl = C.guarded(K.impl_valget, data)
+            cases.append(Case('valget-decode-published-keys', f'valget {sk} {C.hexs(data)}', impl.rstrip(), {'message': 'UbxCfgValGet', 'pattern': pi, 'payload_hex': C.hexs(data)}, kind='valget/published'))
     for n in [0, 1, 2, 3, 10, 63, 64, 64] + [rng.randrange(1, 65) for _ in range(6 if tier == 'quick' else 300)]:
         body = b''
         for j in range(n):
@@ -140,7 +197,7 @@ def check(tier, seed):
                 mt = R.message_table()
             except Exception:
                 mt = {}
-        cases = message_cases(res, rng, mt, tier) + codec_cases(rng, tier) + valget_cases(rng, tier)
+        cases = message_cases(res, rng, mt, tier) + codec_cases(rng, tier) + valget_cases(rng, tier) + factory_cases(rng, mt, tier)
         res.compare(cases)
         res.exhaustive = tier == 'thorough'
         res.oblige('correspondence construct()/Item.unpack vs model and oracle (Tie A)', not res.disagreements)
